@@ -54,10 +54,27 @@ def build_model(spec, fresh=False):
         return m
     name = spec.get('name', 'custom')
     from penman.model import Model
-    if name == 'default':
+    if spec.get('lenient_roles'):
+        # a model written as a subclass that overrides the documented query "does the model define this role?"
+        # (case-insensitively here); Model.errors() is specified in terms of that query
+        base = build_table(dict((k, v) for k, v in spec.items() if k != 'lenient_roles'))
+
+        class CaseInsensitiveRoles(Model):
+            def has_role(self, role):
+                return super().has_role(role) or super().has_role(role.lower())
+        m = CaseInsensitiveRoles(top_role=base['top_role'], concept_role=base['concept_role'], roles={r: {} for r in base['roles']},
+                                 normalizations=base['normalizations'], reifications=[tuple(r) for r in base['reifications']])
+    elif name == 'default':
         m = Model()
     elif name == 'amr':
         from penman.models.amr import model as m
+    elif name == 'noop' and spec.get('by_override'):
+        # a no-op model written by a user the documented way: a Model subclass that overrides the query "is this role
+        # inverted?" (never).  Reading a text with it must leave every role as written, exactly like penman.models.noop.
+        class HandWrittenNoOp(Model):
+            def is_role_inverted(self, role):
+                return False
+        m = HandWrittenNoOp()
     elif name == 'noop' and 'top_role' not in spec and 'concept_role' not in spec:
         from penman.models.noop import model as m
     else:
